@@ -161,12 +161,12 @@ _EMPTY = frozenset()
 class Val:
     __slots__ = (
         "dim", "al", "deps", "sym", "const", "kind", "obj", "tags", "items", "mapping",
-        "fn", "ext", "elem", "base", "name", "pdeps", "guardp", "born", "extra",
+        "fn", "ext", "elem", "base", "name", "pdeps", "guardp", "born", "extra", "tr",
     )
 
     def __init__(self, dim=TOP, al=_EMPTY, deps=_EMPTY, sym=None, const=NOCONST, kind="unknown",
                  obj=None, tags=_EMPTY, items=None, mapping=None, fn=None, ext=None, elem=None,
-                 base=None, name=None, pdeps=_EMPTY, guardp=_EMPTY, born=0, extra=None):
+                 base=None, name=None, pdeps=_EMPTY, guardp=_EMPTY, born=0, extra=None, tr=None):
         self.dim = dim
         self.al = al          # frozenset of Loc=(oid, attr)  -- the storage this value is / views
         self.deps = deps      # frozenset of Loc read to compute it
@@ -186,6 +186,7 @@ class Val:
         self.guardp = guardp  # entry-parameter names of which this value is a positive multiple
         self.born = born      # time stamp of creation (escape-then-mutate)
         self.extra = extra
+        self.tr = tr          # translation type (cxa/trans.py): T0 | T1 | TA | MIX | TX | EQ | None
 
     def copy(self, **kw):
         v = Val.__new__(Val)
@@ -339,4 +340,5 @@ def join_vals(a: Optional[Val], b: Optional[Val]) -> Optional[Val]:
         guardp=a.guardp & b.guardp,
         born=min(a.born, b.born),
         extra=a.extra if a.extra == b.extra else _alt_fns(a, b),
+        tr=a.tr if a.tr == b.tr else None,
     )
